@@ -529,7 +529,7 @@ Section Proofs.
     intros x T g. unfold fit_gm.
     destruct (t_empty T); [reflexivity|]. destruct (negb (t_numeric T)); [reflexivity|].
     destruct (t_has_nan T); [reflexivity|].
-    destruct (fit_columns _ _ _ _ _ _ _ _ _) as [[[ns us] g1]|e]; [|reflexivity].
+    destruct (fit_columns _ _ _ _ _ _ _ _ _) as [g1 [[ns us]|e]]; [|reflexivity].
     destruct (first_err _); reflexivity.
   Qed.
 
@@ -543,7 +543,7 @@ Section Proofs.
     unfold er, fit_gm; simpl.
     destruct (t_empty T); [discriminate|]. destruct (negb (t_numeric T)); [discriminate|].
     destruct (t_has_nan T); [discriminate|].
-    destruct (fit_columns _ _ _ _ _ _ _ _ _) as [[[ns us] g1]|e]; [|discriminate].
+    destruct (fit_columns _ _ _ _ _ _ _ _ _) as [g1 [[ns us]|e]]; [|discriminate].
     destruct (first_err _); [discriminate|reflexivity].
   Qed.
 
